@@ -359,7 +359,7 @@ impl<'r> Renderer<'r> {
     }
 
     fn flow_ctx(&self, block_n: isize, single_line: bool) -> FlowCtx {
-        FlowCtx { in_flow: true, single_line, cont_min: (block_n + 1).max(0) as usize, top_level: block_n < 0 }
+        FlowCtx { in_flow: true, single_line, cont_min: (block_n + 1).max(0) as usize, top_level: block_n < 0, first_col0: block_n < 0 }
     }
 
     /// Emit `node` in flow style at the cursor. `multi`: line breaks allowed. `as_key`: single line.
@@ -678,7 +678,7 @@ impl<'r> Renderer<'r> {
                         self.out.push(' ');
                     }
                 }
-                let ctx = FlowCtx { in_flow: false, single_line: !multi, cont_min: (cont_n + 1).max(0) as usize, top_level: n < 0 };
+                let ctx = FlowCtx { in_flow: false, single_line: !multi, cont_min: (cont_n + 1).max(0) as usize, top_level: n < 0, first_col0: n < 0 };
                 let style = self.put_flow_scalar(t, ctx, multi, !p.is_empty(), None, false);
                 self.ev.push(SEv::Scalar { v: t.clone(), style, aid, tag });
                 self.last_leaf_null = false;
@@ -723,7 +723,7 @@ impl<'r> Renderer<'r> {
             // cannot be expressed as a block scalar here (e.g. leading space at top level): use a
             // double-quoted scalar with the same value instead
             let v = scalars::block_value(lines, folded, chomp);
-            let ctx = FlowCtx { in_flow: false, single_line: true, cont_min: (n + 1).max(0) as usize, top_level: n < 0 };
+            let ctx = FlowCtx { in_flow: false, single_line: true, cont_min: (n + 1).max(0) as usize, top_level: n < 0, first_col0: n < 0 };
             let s = scalars::render_flow_scalar(&v, FStyle::Double, ctx, self.r, false).unwrap();
             self.out.push_str(&s);
             self.ev.push(SEv::Scalar { v, style: ScalarStyle::DoubleQuoted, aid, tag });
@@ -863,7 +863,7 @@ impl<'r> Renderer<'r> {
                         self.out.push_str(&p);
                         self.out.push(' ');
                     }
-                    let ctx = FlowCtx { in_flow: false, single_line: true, cont_min: m + 1, top_level: false };
+                    let ctx = FlowCtx { in_flow: false, single_line: true, cont_min: m + 1, top_level: false, first_col0: m == 0 };
                     let style = self.put_flow_scalar(t, ctx, false, !p.is_empty(), Some(false), true);
                     self.ev.push(SEv::Scalar { v: t.clone(), style, aid, tag });
                     if self.r.chance(1, 8) {
